@@ -131,7 +131,9 @@ class FileHeaderRule(BaseLintRule):  # thailint: ignore[srp]
         header = parser.extract_header(context.file_content or "")
 
         if not header:
-            return self._build_missing_header_violations(context)
+            return self._filter_ignored_violations(
+                self._build_missing_header_violations(context), context
+            )
 
         fields = parser.parse_fields(header)
         violations = self._validate_header_fields(fields, context, config)
@@ -146,7 +148,9 @@ class FileHeaderRule(BaseLintRule):  # thailint: ignore[srp]
         header = parser.extract_header(context.file_content or "")
 
         if not header:
-            return self._build_missing_header_violations(context)
+            return self._filter_ignored_violations(
+                self._build_missing_header_violations(context), context
+            )
 
         fields = parser.parse_fields(header)
         violations = self._validate_header_fields(fields, context, config)
